@@ -175,9 +175,12 @@ impl<'a> IrEmitter<'a> {
             }
             BinOpEmitKind::Pow { result_is_int } => {
                 if result_is_int {
-                    // A bare integer literal has no definite type for a method call (`2.pow(..)` is ambiguous).
+                    // A bare integer literal has no definite type for a method call (`2.pow(..)` is ambiguous), and
+                    // neither has a variable bound to one (`a = 2` is `let a = 2;`): the path form fixes the type.
                     if matches!(left.kind, IrExprKind::Int(_)) {
                         Ok(quote! { (#l as i64).pow(#r as u32) })
+                    } else if matches!(left.kind, IrExprKind::Var { .. }) {
+                        Ok(quote! { i64::pow(#l, #r as u32) })
                     } else {
                         Ok(quote! { #l.pow(#r as u32) })
                     }
